@@ -292,6 +292,8 @@ class Interp(object):
         self.call_depth = 0
         self.current_line = None
         self.sys_path = ['<sys.path[0]>']
+        self.sys_modules = None       # a concrete dict replaces the symbolic sys.modules when set
+        self.fs_dirs = None           # directory -> listing, for os.listdir
         self.memoise_cached = False
         self.nodevisitor_model = False
         self.guarded_getattr = 0
@@ -541,6 +543,10 @@ class Interp(object):
                 return v.attrs
             m = v.cls.lookup(attr)
             if m is not None:
+                if 'staticmethod' in m.decorators:
+                    return FuncVal(m.rel, m.node, None, None, m.cls)
+                if 'classmethod' in m.decorators:
+                    return FuncVal(m.rel, m.node, None, ClassRef(v.cls), m.cls)
                 fv = FuncVal(m.rel, m.node, None, v, m.cls)
                 if m.is_property:
                     val = self.call(fv, [], {})
@@ -593,6 +599,8 @@ class Interp(object):
         if isinstance(v, ClassRef):
             m = v.info.lookup(attr)
             if m is not None:
+                if 'classmethod' in m.decorators:
+                    return FuncVal(m.rel, m.node, None, v, m.cls)
                 return FuncVal(m.rel, m.node, None, None, m.cls)
             for c in v.info.mro():
                 if attr in c.class_attrs:
@@ -604,7 +612,7 @@ class Interp(object):
             return self.lookup_global(v.rel, attr)
         if isinstance(v, NativeModule):
             if v.mod is __import__('sys') and attr == 'modules':
-                return SymDict('sys.modules')
+                return self.sys_modules if self.sys_modules is not None else SymDict('sys.modules')
             if v.mod is __import__('sys') and attr == 'path':
                 return self.sys_path
             x = getattr(v.mod, attr)
@@ -860,6 +868,15 @@ class Interp(object):
         if self.fs is not None:
             return str(args[0]) in self.fs
         return self.decide(('exists', str(args[0])))
+
+    def nat_listdir(self, args, kwargs):
+        self.effect('listdir', args[0])
+        if self.fs_dirs is None:
+            raise Uninterpretable('os.listdir without a modelled file system')
+        d = str(args[0]).rstrip('/')
+        if d not in self.fs_dirs:
+            raise InterpRaise('FileNotFoundError', d)
+        return list(self.fs_dirs[d])
 
     def nat_getmtime(self, args, kwargs):
         self.effect('getmtime', args[0])
@@ -1350,8 +1367,7 @@ class Interp(object):
                     if h.type is not None:
                         ts = h.type.elts if isinstance(h.type, ast.Tuple) else [h.type]
                         names = [unparse(t).split('.')[-1] for t in ts]
-                    if h.type is None or e.exc_name in names or 'Exception' in names or 'BaseException' in names \
-                            or (e.exc_name in ('KeyError', 'IndexError') and 'LookupError' in names):
+                    if h.type is None or any(self.exc_matches(e.exc_name, n) for n in names):
                         if h.name:
                             f.store(h.name, e.value if e.value is not None else ExcVal(e.exc_name, e.msg, e.attrs))
                         saved = self.current_exc
@@ -1405,8 +1421,56 @@ class Interp(object):
         for a in st.names:
             f.store(a.asname or a.name, Unknown('import ' + a.name))
 
+    def exc_matches(self, exc_name, handler):
+        if exc_name == handler or handler == 'BaseException':
+            return True
+        a, b = getattr(_builtins, exc_name, None), getattr(_builtins, handler, None)
+        if isinstance(a, type) and isinstance(b, type):
+            return issubclass(a, b)
+        ci = self.facts.classes.get(exc_name) if self.facts is not None else None
+        if ci is not None:
+            seen = set()
+            todo = [ci]
+            while todo:
+                c = todo.pop()
+                if c.name in seen:
+                    continue
+                seen.add(c.name)
+                for bn in c.base_names:
+                    bn = bn.split('.')[-1]
+                    if bn == handler or (isinstance(getattr(_builtins, bn, None), type) and isinstance(b, type)
+                                         and issubclass(getattr(_builtins, bn), b)):
+                        return True
+                    if bn in self.facts.classes:
+                        todo.append(self.facts.classes[bn])
+            return False
+        # an exception class the analysis knows nothing about: `except Exception` catches it
+        return handler == 'Exception'
+
     def s_With(self, st, f):
-        raise Uninterpretable('%s:%s with statement in interpreted code' % (f.rel, st.lineno))
+        cms = []
+        for item in st.items:
+            cm = self.eval(item.context_expr, f)
+            if not isinstance(cm, Obj):
+                raise Uninterpretable('%s:%s with statement over %r' % (f.rel, st.lineno, cm))
+            v = self.call(self.getattr(cm, '__enter__'), [], {})
+            if item.optional_vars is not None:
+                self.assign(item.optional_vars, v, f)
+            cms.append(cm)
+        try:
+            self.exec_block(st.body, f)
+        except InterpRaise as e:
+            for cm in reversed(cms):
+                if self.truth(self.call(self.getattr(cm, '__exit__'), [e.exc_name, e, None], {}), None):
+                    return
+            raise
+        except (_Return, _Break, _Continue):
+            for cm in reversed(cms):
+                self.call(self.getattr(cm, '__exit__'), [None, None, None], {})
+            raise
+        else:
+            for cm in reversed(cms):
+                self.call(self.getattr(cm, '__exit__'), [None, None, None], {})
 
     def s_Assert(self, st, f):
         pass
@@ -1420,6 +1484,15 @@ class Interp(object):
                     del c[i]
                 except (KeyError, IndexError):
                     raise InterpRaise('KeyError', repr(i), st)
+            elif isinstance(t, ast.Attribute):
+                o = self.eval(t.value, f)
+                if not isinstance(o, Obj):
+                    raise Uninterpretable('del of an attribute of %r' % (o,))
+                if t.attr not in o.attrs:
+                    raise InterpRaise('AttributeError', t.attr, st)
+                del o.attrs[t.attr]
+            elif isinstance(t, ast.Name):
+                f.local.pop(t.id, None)
             else:
                 raise Uninterpretable('del %s' % type(t).__name__)
 
